@@ -30,6 +30,17 @@ class _Abort(BaseException):
     """Current path is infeasible (assumption false / no polarity satisfiable)."""
 
 
+class _Skip(BaseException):
+    """Current path belongs to another partition of a split instance."""
+
+
+def _vhash(v):
+    h = 1469598103
+    for x in v:
+        h = (h * 1000003 + int(x) + 7) % 2147483647
+    return h
+
+
 class _Stop(BaseException):
     """Current path ended early (violation recorded)."""
 
@@ -444,6 +455,14 @@ class Q:
             return f"Q({a.const()})"
         return f"Q<{len(a.n.t)}t/{len(a.d.t)}t>"
 
+    def __str__(a):
+        """exact, parseable rendering: constants as fractions, symbolic values as registry tokens."""
+        if a.is_const():
+            return str(a.const())
+        toks = CUR.tokens
+        toks.append(a)
+        return f"@Q{len(toks) - 1}@"
+
     def pretty(a):
         return f"({_pp(a.n)})/({_pp(a.d)})" if a.d.t != ONE.t else _pp(a.n)
 
@@ -461,6 +480,17 @@ def _pp(p):
 
 def qconst(x):
     return Q(Poly.const(x))
+
+
+def parse_number(s):
+    """inverse of Q.__str__ (and of str(float)): token -> the registered Q, otherwise an exact constant."""
+    s = s.strip()
+    if s.startswith("@Q") and s.endswith("@"):
+        return CUR.tokens[int(s[2:-1])]
+    try:
+        return qconst(Fraction(s))
+    except ValueError:
+        return qconst(Fraction(float(s)))
 
 
 def is_sym(x):
@@ -506,8 +536,9 @@ class Ctx:
     symbolic = True
 
     def __init__(self, timeout_ms=30000, max_paths=2_000_000, record_queries=0, seed=0, prefix=()):
-        self.prefix = list(prefix)
-        self.pfx_used = 0
+        self.split = tuple(prefix) if prefix else None   # (i, N, depth)
+        self.fork_outcomes = []
+        self.skipped = 0
         self.names = []
         self.kinds = []
         self.z3vars = []
@@ -729,8 +760,7 @@ class Ctx:
             self.known[key] = (kn & signs) if val else (kn - signs)
             if e.forked:
                 self.path_forked = True
-                if e.n == -1:
-                    self.pfx_used += 1
+                self._fork_outcome(1 if val else 0)
             return val
         atom = self._atom(key, signs)
         natom = self._atom(key, _ALL - signs)
@@ -754,19 +784,6 @@ class Ctx:
         if sat_t and sat_f:
             self.forks += 1
             self.path_forked = True
-            if self.pfx_used < len(self.prefix):
-                # partitioned exploration: this sub-instance only follows the prescribed branch here
-                take = not self.prefix[self.pfx_used]
-                self.pfx_used += 1
-                self.log.append(_Entry("dec", (key, signs), take, forked=True, tried=True, level=self.level, n=-1,
-                                       constraint=(atom, natom)))
-                self.pos += 1
-                self.solver.push()
-                self.level += 1
-                self.solver.add(atom if take else natom)
-                self.model = m_t if take else m_f
-                self.known[key] = (kn & signs) if take else (kn - signs)
-                return take
             self.log.append(_Entry("dec", (key, signs), True, forked=True, tried=False, level=self.level,
                                    constraint=(atom, natom)))
             self.pos += 1
@@ -775,6 +792,7 @@ class Ctx:
             self.solver.add(atom)
             self.model = m_t
             self.known[key] = kn & signs
+            self._fork_outcome(1)
             return True
         if sat_t:
             self.log.append(_Entry("dec", (key, signs), True, level=self.level))
@@ -803,12 +821,24 @@ class Ctx:
             self.pos += 1
             self.path_choices.append((label, e.value))
             self.path_forked = True
+            self._fork_outcome(e.value)
             return e.value
         self.log.append(_Entry("choice", label, 0, forked=True, tried=False, level=self.level, n=n))
         self.pos += 1
         self.path_choices.append((label, 0))
         self.path_forked = True
+        self._fork_outcome(0)
         return 0
+
+    def _fork_outcome(self, v):
+        """partitioned exploration: sub-instance i of N follows a path only if the hash of its first D fork outcomes
+        is i (mod N); the test is made as soon as the D-th fork is taken."""
+        fo = self.fork_outcomes
+        fo.append(v)
+        if self.split and len(fo) == self.split[2]:
+            if _vhash(fo) % self.split[1] != self.split[0]:
+                self.skipped += 1
+                raise _Skip()
 
     def pick(self, options, label=""):
         options = list(options)
@@ -971,8 +1001,9 @@ class Ctx:
         self.known = {}
         self.path_choices = []
         self.path_forked = False
-        self.pfx_used = 0
+        self.fork_outcomes = []
         self.varcount = 0
+        self.tokens = []
         self.sqrt_memo = {}
         self.exp_memo = {}
 
@@ -1013,8 +1044,10 @@ class Ctx:
                 self._reset_path()
                 try:
                     fn(self)
-                    if self.pfx_used < len(self.prefix) and any(self.prefix[self.pfx_used:]):
-                        raise _Abort()  # a shorter path belongs to the all-zero-suffix partition only
+                    if self.split and len(self.fork_outcomes) < self.split[2] and \
+                            _vhash(self.fork_outcomes) % self.split[1] != self.split[0]:
+                        self.skipped += 1
+                        raise _Skip()
                     self.paths += 1
                     if self.path_forked:
                         self.forked_paths += 1
@@ -1029,6 +1062,8 @@ class Ctx:
                             })
                         except _Abort:
                             pass
+                except _Skip:
+                    pass
                 except _Abort:
                     self.aborted += 1
                 except _Stop:
@@ -1048,6 +1083,7 @@ class Ctx:
             "paths": self.paths,
             "forked_paths": self.forked_paths,
             "infeasible": self.aborted,
+            "skipped_other_partition": self.skipped,
             "forks": self.forks,
             "queries": self.nq,
             "solver_s": round(self.tq, 3),
@@ -1102,6 +1138,7 @@ class ConcreteCtx:
         self.rules = {}
         self.varcount = 0
         self.path_choices = []
+        self.tokens = []
 
     def fresh(self, prefix):
         self.varcount += 1
